@@ -16,6 +16,11 @@ class VariableBoundExprMaxPropagator(VariableBoundMaxPropagator):
         self.max_e = max_e
 
     def max(self):
-        return int(self.max_e.val())
+        ret = int(self.max_e.val())
+        if ret < 0 and not self.target.var.is_signed:
+            # The solver evaluates the operand modulo 2^width: a negative
+            # value is a very large unsigned one, which bounds nothing
+            return None
+        return ret
     
     
